@@ -17,7 +17,7 @@ pub static DEF: PropDef = PropDef {
     id: "C05",
     level: "fault_enumeration",
     engine: "ingest",
-    rule: "random phase: one run = a generated history of 4..14 WAL operations (append of a random-size batch - one run in forty with an entry of more than 2 MiB -, one run in eight continuing a log whose segment ids are about to need a seventh digit, rotation via segment limits of ~1/~2/~4 entries/unbounded, truncate_before, persist_flushed_seq, clean reopen, crash with the in-flight append cut at a drawn byte / at the sync / right after creating a new segment, crash inside persist_flushed_seq leaving 0..7 bytes, crash inside truncation, EIO/ENOSPC/short writes), with 1..4 crash-reopen rounds and appends after every reopen; sweep phase (fault enumeration): for each of N generated histories, one run per byte offset 0..=T of the final append (T = header+payload bytes), plus 'die at open of the rotated segment', each followed by a fixed reopen/append/reopen tail; distinct = distinct (history hash, cut position); non-trivial = completed AND at least one crash or disk fault fired",
+    rule: "random phase: one run = a generated history of 4..14 WAL operations (append of a random-size batch - one run in forty with an entry of more than 2 MiB, one in a hundred and fifty with one of more than 64 MiB -, one run in eight continuing a log whose segment ids are about to need a seventh digit, rotation via segment limits of ~1/~2/~4 entries/unbounded, truncate_before, persist_flushed_seq, clean reopen, crash with the in-flight append cut at a drawn byte / at the sync / right after creating a new segment, crash inside persist_flushed_seq leaving 0..7 bytes, crash inside truncation, EIO/ENOSPC/short writes), with 1..4 crash-reopen rounds and appends after every reopen; sweep phase (fault enumeration): for each of N generated histories, one run per byte offset 0..=T of the final append (T = header+payload bytes), plus 'die at open of the rotated segment', each followed by a fixed reopen/append/reopen tail; distinct = distinct (history hash, cut position); non-trivial = completed AND at least one crash or disk fault fired",
     quick_runs: 4000,
     thorough_runs: 100_000,
     run_cap_ms: 20_000,
@@ -239,6 +239,8 @@ fn scen(spec: RunSpec) -> ScenFut {
         }
         // one random run in forty appends an entry of more than 2 MiB (tokio's File accepts 2 MiB per write call)
         let giant_at: Option<u32> = if !is_sweep && sim::w(40) == 39 { Some(1 + sim::w(3)) } else { None };
+        // ... and one in a hundred and fifty an entry of more than 64 MiB (the writer has no size limit, so the reader has none)
+        let huge_at: Option<u32> = if !is_sweep && sim::w(150) == 149 { Some(1 + sim::w(3)) } else { None };
         let cfg = WalConfig { wal_dir: dir.clone().into(), max_segment_size: seg, sync_mode: WalSyncMode::EveryWrite, enabled: true };
         sim::log(format!("CONFIG max_segment_size={seg} variant={}", spec.variant));
         let mut m = Model { log: vec![], lost_prefix: 0, trunc_bound: 0, max_acked: 0, max_flushed: 0, next_id: 1, crashes: 0, hist: format!("seg{seg};") };
@@ -260,7 +262,10 @@ fn scen(spec: RunSpec) -> ScenFut {
             match kind {
                 0..=3 => {
                     let (rows, slen) = (sim::w_range(1, 4) as usize, [0usize, 3, 40, 300][sim::w(4) as usize]);
-                    let (rows, slen) = if giant_at == Some(step) {
+                    let (rows, slen) = if huge_at == Some(step) {
+                        sim::probe("entry-larger-than-64MiB");
+                        (4_400_000usize, 0usize)
+                    } else if giant_at == Some(step) {
                         sim::probe("entry-larger-than-2MiB");
                         (140_000usize, 0usize)
                     } else {
